@@ -60,7 +60,7 @@ def table_seeds():
             if v["detected"]:
                 by.append("%s (%s)" % (k, ", ".join(v["keys"][:2]) if v["keys"] else "correspondence / proof obligation, no-failing-input-found"))
             else:
-                by.append("%s: not this check's property, exit %s" % (k, v["exit"]))
+                by.append("%s: %s, exit %s" % (k, "not detected (discussed above)" if k == m.get("property", m.get("breaks_property")) else "not this check's property", v["exit"]))
         rows.append("| %s | %s | %s | %s |" % (os.path.basename(d), what, needs, "; ".join(by)))
     return "\n".join(rows)
 
